@@ -146,6 +146,23 @@ fn oracle(c: &Case, st: &mut Stats) -> Result<(), String> {
   }
   let shares: Vec<Share> = reports.iter().map(|r| r.share.clone()).collect();
 
+  // for part of the cases the aggregation side has already tried - and failed - to open this
+  // measurement from too few distinct reports, some of them sent repeatedly; what it may
+  // remember of that attempt must not stand in the way once enough reports are there
+  if t >= 2 && c.extra % 2 == 1 {
+    let d = (t as usize - 1).min(n);
+    let mut early: Vec<Share> = shares[..d].to_vec();
+    let reps = 1 + (c.extra as usize / 2) % (2 * t as usize);
+    for k in 0..reps {
+      early.push(shares[k % d].clone());
+    }
+    st.evals(1);
+    if share_recover(&early).is_ok() {
+      return Err(format!("share_recover succeeded on {} distinct reports (with {reps} repeats) under threshold {t}", d));
+    }
+    st.class("earlier-failed-attempt-with-repeats");
+  }
+
   let identity: Vec<usize> = (0..n).collect();
   let mut exact = c.sel_exact.clone();
   exact.extra = 0;
@@ -219,7 +236,7 @@ pub fn property() -> Property {
   Property {
     id: "C01",
     level: "exploration",
-    rule: "generated (measurement, epoch, t, n=t+extra, per-client aux absent/empty/bytes, randomness source local/arbitrary/PPOPRF exchange, wire round trip) x 3 selections (identity, exactly t distinct permuted, permuted superset with duplicates); oracle: share_recover Ok, messages equal across selections, every one of the n reports decrypts to chunk(measurement)[chunk(aux)] exactly as supplied (absent != empty). Non-trivial: t >= 2 and the selection is not the identity order of all reports; distinct by (t, n, lengths, measurement, selection shape, source, wire).",
+    rule: "generated (measurement, epoch, t, n=t+extra, per-client aux absent/empty/bytes, randomness source local/arbitrary/PPOPRF exchange, wire round trip) x 3 selections (identity, exactly t distinct permuted, permuted superset with duplicates), for half of the cases preceded by a failed attempt on t-1 distinct reports padded with repeats; oracle: share_recover Ok, messages equal across selections, every one of the n reports decrypts to chunk(measurement)[chunk(aux)] exactly as supplied (absent != empty). Non-trivial: t >= 2 and the selection is not the identity order of all reports; distinct by (t, n, lengths, measurement, selection shape, source, wire).",
     assumptions: vec![
       "share points come from OsRng inside the code under test: each case samples one point set",
       "the STAR randomness-server path is exercised by running blind/eval/verify/unblind/finalize in the harness (the crate's own star2 feature does not compile at this commit)",
